@@ -14,8 +14,8 @@
 -/
 import Driver.ProtoMesh
 import FcModel.Spec.C16
-namespace Fc.Drv
-open Fc
+namespace Fc.Drv.C16
+open Fc Fc.Drv Fc.C03 Fc.C16
 
 def pTriple {α} (p : P α) : P (List α) := pMany p 3
 
@@ -56,13 +56,13 @@ def genericOk : AnyMesh → Bool
 
 def specOf (a b : AnyMesh) : Option Bool :=
   match a, b with
-  | .image x, .image y => some (Spec.imageParamsWithin x.rel x.abs x y)
-  | .rect x, .rect y => some (Spec.rectParamsWithin x.rel x.abs x y)
-  | .struct x, .struct y => some (Spec.structParamsWithin x.rel x.abs x y)
-  | .permuted x, y => y.view.map fun v => Spec.meshEqualSpec x.rel x.abs x.mesh v.mesh
+  | .image x, .image y => some (imageParamsWithin x.rel x.abs x y)
+  | .rect x, .rect y => some (rectParamsWithin x.rel x.abs x y)
+  | .struct x, .struct y => some (structParamsWithin x.rel x.abs x y)
+  | .permuted x, y => y.view.map fun v => meshEqualSpec x.rel x.abs x.mesh v.mesh
   | x, y =>
     match x.view, y.view with
-    | some u, some v => some (Spec.meshEqualSpec (min u.rel v.rel) (min u.abs v.abs) u.mesh v.mesh)
+    | some u, some v => some (meshEqualSpec (min u.rel v.rel) (min u.abs v.abs) u.mesh v.mesh)
     | _, _ => none
 
 def opC16Eq : P String := do
@@ -87,10 +87,10 @@ def opC16Gen : P String := do
     | some v => if genericOk a then showBool (v.mesh == m) else "-"
     | none => "-"
   let tol := match a with
-    | .explicit x => x.mesh.defaultAbsTol
-    | .permuted x => x.mesh.defaultAbsTol
+    | .explicit x => meshDefaultAbsTol x.mesh
+    | .permuted x => meshDefaultAbsTol x.mesh
     | .rect g => g.defaultAbsTol
-    | .struct g => g.toMesh.defaultAbsTol
+    | .struct g => meshDefaultAbsTol g.toMesh
     | .image g => g.defaultAbsTol
   pure s!"gen={gen} tol={showOptNat tol}"
 
@@ -109,4 +109,6 @@ def handleC16 (op : String) : Option (P String) :=
   | "c16compat" => some opC16Compat
   | _ => none
 
-end Fc.Drv
+end Fc.Drv.C16
+
+def Fc.Drv.handleC16 := Fc.Drv.C16.handleC16
